@@ -239,14 +239,67 @@ theorem getD_mem {α} (l : List (List α)) (i : Nat) : l.getD i [] = [] ∨ l.ge
   · right; simp [List.getD, List.getElem?_eq_getElem h]
   · left; simp [List.getD, List.getElem?_eq_none h]
 
+/-! #### the code path: ragged view, Python slices, `where_rows` -/
+
+theorem view_extract_eq (data : List Nat) (ivs : List Iv) :
+    View.extract data (View.ofBounds ivs).starts (View.ofBounds ivs).lens = ivs.map (fun iv => slice data iv) := by
+  induction ivs with
+  | nil => rfl
+  | cons iv ivs ih =>
+    simp only [View.ofBounds, List.map_cons, View.extract, slice] at ih ⊢
+    rw [ih]
+
+theorem pySliceNat_eq (seq : List Nat) (iv : Iv) : pySliceNat seq iv.start iv.stop = slice seq iv := by
+  simp [pySliceNat, slice, List.drop_take]
+
+theorem whereFlat_append (m : Bool) (r r' : List Nat) (hl : r.length = r'.length) (M : List Bool) (X Y : List Nat) :
+    whereFlat (List.replicate r.length m ++ M) (r ++ X) (r' ++ Y) = (if m then r else r') ++ whereFlat M X Y := by
+  induction r generalizing r' with
+  | nil =>
+    cases r' with
+    | nil => cases m <;> simp
+    | cons _ _ => simp at hl
+  | cons x xs ih =>
+    cases r' with
+    | nil => simp at hl
+    | cons y ys =>
+      have := ih ys (by simpa using hl)
+      simp only [List.length_cons, List.replicate_succ, List.cons_append, whereFlat, this]
+      cases m <;> simp
+
+/-- `where_rows` with one boolean per row and equally shaped operands IS row selection -/
+theorem whereRows_eq_selectRows (mask : List Bool) (a b : List (List Nat)) (h1 : mask.length = a.length)
+    (h2 : a.map List.length = b.map List.length) : whereRows mask a b = selectRows mask a b := by
+  unfold whereRows
+  induction a generalizing mask b with
+  | nil => cases mask <;> simp [unflatten, selectRows]
+  | cons r as ih =>
+    cases mask with
+    | nil => simp at h1
+    | cons m ms =>
+      cases b with
+      | nil => simp at h2
+      | cons r' bs =>
+        simp only [List.map_cons, List.cons.injEq] at h2
+        simp only [List.map_cons, expandMask, List.flatten_cons, selectRows, unflatten]
+        rw [whereFlat_append m r r' h2.1]
+        have hlen : (if m = true then r else r').length = r.length := by cases m <;> simp [h2.1]
+        rw [List.take_left' hlen, List.drop_left' hlen]
+        congr 1
+        exact ih ms bs (by simpa using h1) h2.2
+
 /-- C14 clause 4 (`strand_specific`): for every encoding with a good table, every set of sequences
-that decode to DNA text and every list of intervals with strands `+`/`-`, BOTH entry points
-(`get_strand_specific_sequences` and `GenomicSequence.extract_intervals(stranded=True)`) succeed
-and return, per interval, the forward slice for `+` and its reverse complement for `-`. -/
+that decode to DNA text and every list of intervals with strands `+`/`-`, BOTH entry points succeed
+and return, per interval, the forward slice for `+` and its reverse complement for `-`:
+`get_strand_specific_sequences` (one sequence, ragged view by the interval bounds, `where_rows`
+on `strand == '-'`; the intervals all refer to that sequence) and
+`GenomicSequence.extract_intervals(stranded=True)` (one Python slice per interval of the named
+sequence, `where_rows` on `strand == '+'`). -/
 theorem strand_specific (T : Tab) (h : tableOK T = true) (seqs : List (List Nat)) (texts : List Bytes)
     (hd : omap (decode T) seqs = some texts) (hdna : ∀ t ∈ texts, ∀ b ∈ t, isDna b = true)
     (ivs : List Iv) (hs : ∀ iv ∈ ivs, iv.strand = 43 ∨ iv.strand = 45) :
-    ∃ out, strandSpecific T seqs ivs = some out ∧ extractStranded T seqs ivs = some out ∧
+    ∃ out, ((∀ iv ∈ ivs, iv.chrom = 0) → strandSpecific T seqs ivs = some out) ∧
+      extractStranded T seqs ivs = some out ∧
       omap (decode T) out = some (specStrand texts ivs) := by
   have hrel := relevant_decode T seqs texts hd ivs
   have hreldna : ∀ t ∈ relevant texts ivs, ∀ b ∈ t, isDna b = true := by
@@ -273,9 +326,29 @@ theorem strand_specific (T : Tab) (h : tableOK T = true) (seqs : List (List Nat)
         simp only [List.map_cons, selectRows]
         rw [ih (fun x hx => hs x (by simp [hx])) rs (by simpa using hlen)]
         rcases hs iv (by simp) with e | e <;> simp [e]
+  have hlens := revcomp_lengths T _ rc hrc
+  have hrlen : (relevant seqs ivs).length = ivs.length := by simp [relevant]
+  have hrclen : rc.length = ivs.length := by
+    have := congrArg List.length hlens
+    simpa [relevant] using this
   refine ⟨selectRows (ivs.map (fun iv => iv.strand == 45)) rc (relevant seqs ivs), ?_, ?_, ?_⟩
-  · simp [strandSpecific, hrc]
-  · simp [extractStranded, hrc, hsame]
+  · intro hc0
+    have hview : View.extract (seqs.getD 0 []) (View.ofBounds ivs).starts (View.ofBounds ivs).lens =
+        relevant seqs ivs := by
+      rw [view_extract_eq]
+      unfold relevant
+      apply List.map_congr_left
+      intro iv hiv
+      rw [hc0 iv hiv]
+    simp only [strandSpecific, hview, hrc, Option.map_some, Option.some.injEq]
+    exact whereRows_eq_selectRows _ _ _ (by simp [hrclen]) hlens
+  · have hpy : ivs.map (fun iv => pySliceNat (seqs.getD iv.chrom []) iv.start iv.stop) = relevant seqs ivs := by
+      unfold relevant
+      apply List.map_congr_left
+      intro iv _
+      exact pySliceNat_eq _ iv
+    simp only [extractStranded, hpy, hrc, Option.map_some, Option.some.injEq]
+    rw [whereRows_eq_selectRows _ _ _ (by simp [hrlen]) hlens.symm, hsame]
   · rw [selectRows_decode (decode T) _ _ _ _ _ hrcd hrel]
     unfold relevant specStrand
     rw [List.map_map, selectRows_map]
@@ -283,6 +356,103 @@ theorem strand_specific (T : Tab) (h : tableOK T = true) (seqs : List (List Nat)
     apply List.map_congr_left
     intro iv hiv
     rcases hs iv hiv with e | e <;> simp [e]
+
+/-! #### transcript sequences -/
+
+theorem groupRuns_flatten (exons : List Exon) : (groupRuns exons).flatten = exons := by
+  induction exons with
+  | nil => rfl
+  | cons e es ih =>
+    simp only [groupRuns]
+    cases hg : groupRuns es with
+    | nil => rw [hg] at ih; simp at ih; simp [← ih]
+    | cons g gs =>
+      rw [hg] at ih
+      simp only
+      split <;> simp [← ih]
+
+theorem view_extract_exons (ref : List Nat) (exons : List Exon) :
+    View.extract ref (exons.map (·.start)) (exons.map (fun e => e.stop - e.start)) = exons.map (exonSlice ref) := by
+  induction exons with
+  | nil => rfl
+  | cons e es ih => simp only [List.map_cons, View.extract, exonSlice] at ih ⊢; rw [ih]
+
+theorem exonSlice_length (ref : List Nat) (e : Exon) (h : e.stop ≤ ref.length) :
+    (exonSlice ref e).length = e.stop - e.start := by
+  simp [exonSlice]; omega
+
+theorem decode_exonSlice (T : Tab) (ref : List Nat) (t : Bytes) (e : Exon) (h : decode T ref = some t) :
+    decode T (exonSlice ref e) = some (exonSlice t e) := by
+  unfold exonSlice decode at *
+  exact omap_take _ _ _ _ (omap_drop _ _ _ _ h)
+
+theorem decode_flatten_map (T : Tab) (ref : List Nat) (t : Bytes) (h : decode T ref = some t) (g : List Exon) :
+    decode T (g.map (exonSlice ref)).flatten = some (g.map (exonSlice t)).flatten := by
+  unfold decode
+  rw [omap_flatten]
+  have : omap (omap fun c => T.dec[c]?) (g.map (exonSlice ref)) = some (g.map (exonSlice t)) := by
+    rw [omap_map]
+    apply omap_some_map
+    intro e _
+    exact decode_exonSlice T ref t e h
+  rw [this]; rfl
+
+/-- C14, transcripts (`sequence/genes.py`): for a reference that decodes to DNA text and exon rows with
+`start ≤ stop ≤ len`, `get_transcript_sequences` returns, per run of equal transcript ids, the exon
+slices joined in order — reverse-complemented as a whole when the transcript's strand is `-`. -/
+theorem transcripts (T : Tab) (h : tableOK T = true) (ref : List Nat) (text : Bytes)
+    (hd : decode T ref = some text) (hdna : ∀ b ∈ text, isDna b = true)
+    (exons : List Exon) (hb : ∀ e ∈ exons, e.stop ≤ ref.length) :
+    ∃ out, transcriptSeqs T ref exons = some out ∧ omap (decode T) out = some (specTranscripts text exons) := by
+  obtain ⟨groups, hgr⟩ : ∃ g, g = groupRuns exons := ⟨_, rfl⟩
+  have hflat : groups.flatten = exons := by rw [hgr]; exact groupRuns_flatten exons
+  have hmemg : ∀ g ∈ groups, ∀ e ∈ g, e ∈ exons := by
+    intro g hg e he
+    rw [← hflat]
+    exact List.mem_flatten.mpr ⟨g, hg, he⟩
+  -- the re-wrapped rows are the per-transcript joins
+  obtain ⟨ts, hts⟩ : ∃ ts, ts = groups.map (fun g => (g.map (exonSlice ref)).flatten) := ⟨_, rfl⟩
+  have hwrap : unflatten (groups.map (fun g => (g.map (fun e => e.stop - e.start)).sum))
+      (View.extract ref (exons.map (·.start)) (exons.map (fun e => e.stop - e.start))).flatten = ts := by
+    rw [view_extract_exons]
+    have e1 : (exons.map (exonSlice ref)).flatten = ts.flatten := by
+      rw [hts, ← hflat, List.map_flatten, List.flatten_flatten, List.map_map]
+      rfl
+    rw [e1]
+    apply unflatten_flatten_of_lengths
+    rw [hts, List.map_map]
+    apply List.map_congr_left
+    intro g hg
+    simp only [Function.comp, List.length_flatten, List.map_map]
+    congr 1
+    apply List.map_congr_left
+    intro e he
+    exact exonSlice_length ref e (hb e (hmemg g hg e he))
+  -- they decode to the per-transcript joins of the text
+  have hdec : omap (decode T) ts = some (groups.map (fun g => (g.map (exonSlice text)).flatten)) := by
+    rw [hts, omap_map]
+    apply omap_some_map
+    intro g _
+    exact decode_flatten_map T ref text hd g
+  have hdna' : ∀ t ∈ groups.map (fun g => (g.map (exonSlice text)).flatten), ∀ b ∈ t, isDna b = true := by
+    intro t ht b hb'
+    obtain ⟨g, _, rfl⟩ := List.mem_map.mp ht
+    obtain ⟨sl, hsl, hbs⟩ := List.mem_flatten.mp hb'
+    obtain ⟨e, _, rfl⟩ := List.mem_map.mp hsl
+    exact hdna b (List.mem_of_mem_drop (List.mem_of_mem_take hbs))
+  obtain ⟨rc, hrc, hrcd⟩ := revcomp_def T h ts _ hdec hdna'
+  have hlens := revcomp_lengths T ts rc hrc
+  have hrclen : rc.length = groups.length := by
+    have := congrArg List.length hlens
+    simpa [hts] using this
+  refine ⟨selectRows (groups.map (fun g => (g.head?.map (·.strand)) == some 45)) rc ts, ?_, ?_⟩
+  · unfold transcriptSeqs
+    simp only [← hgr, hwrap, hrc, Option.map_some, Option.some.injEq]
+    exact whereRows_eq_selectRows _ _ _ (by simp [hrclen]) hlens
+  · rw [selectRows_decode (decode T) _ _ _ _ _ hrcd hdec]
+    unfold specTranscripts
+    rw [← hgr, List.map_map, selectRows_map]
+    rfl
 
 /-- the shipped row selection (npstructures `where` with a column mask that is only broadcast
 when it is smaller than the data) raised on a single one-base interval. Recorded refutation. -/
@@ -452,6 +622,11 @@ example : tableOK Gen.C14.ASCII = true := by decide +kernel
 example : decode Gen.C14.ASCII [97, 67, 78] = some [97, 67, 78] ∧ (∀ b ∈ [97, 67, 78], isDna b = true) := by decide
 example : revcompRagged Gen.C14.ACGTN [[0, 1, 4], [], [3]] = some [[4, 2, 3], [], [0]] := by decide +kernel
 example : strandSpecific Gen.C14.ACGT [[0, 1, 2, 3]] [⟨0, 1, 3, 45⟩, ⟨0, 0, 2, 43⟩] = some [[1, 2], [0, 1]] := by decide +kernel
+example : extractStranded Gen.C14.ACGT [[0, 1, 2, 3], [3, 3]] [⟨0, 1, 3, 45⟩, ⟨1, 0, 0, 45⟩, ⟨1, 0, 2, 43⟩] =
+    some [[1, 2], [], [3, 3]] := by decide +kernel
+example : transcriptSeqs Gen.C14.ACGTN [0, 1, 2, 3, 4, 0, 1] [⟨0, 43, 0, 2⟩, ⟨0, 43, 3, 5⟩, ⟨1, 45, 1, 4⟩] =
+    some [[0, 1, 3, 4], [0, 1, 2]] := by decide +kernel
+example : whereRows [true, false, true] [[1], [], [2, 3]] [[7], [], [8, 9]] = [[1], [], [2, 3]] := by decide
 example : (translateRows stdTable [[65, 84, 71, 116, 97, 97], []]).toOption = some [[77, 42], []] := by decide +kernel
 example : specTranslate [65, 84, 71, 116, 97, 97] = some [77, 42] := by decide +kernel
 
